@@ -45,14 +45,47 @@ def cases(ctx, n):
         out.append([('always', w(a)), ('always', w(na))])
         out.append([('always', w(na)), ('always', w(a))])
     out.append([('always', ('or', ('prev', None, a), ('prev', None, na)))])
+    # &del formulas in the documented normal form (iteration over step-consuming paths; tests are atoms or constants), alone, related to one
+    # another (a sub-formula, the other modality) and next to &tel formulas over the same atoms
+    for i in range(n // 2):
+        d = nofinal(gen.dformula(rng, ['a', 'b'], rng.randint(1, 2), rng.randint(1, 3)))
+        if d[0] not in ('dia', 'box'):
+            d = ('dia', ('star', ('skip',)), d)
+        fs = [(rng.choice(['initial', 'always', 'always', 'dynamic']), ('DEL', d))]
+        k = rng.random()
+        if k < 0.3:
+            fs.append((rng.choice(['always', 'dynamic']), ('DEL', ({'dia': 'box', 'box': 'dia'}[d[0]], d[1], d[2]))))
+        elif k < 0.5 and d[2][0] in ('dia', 'box'):
+            fs.append(('always', ('DEL', d[2])))
+        elif k < 0.7:
+            fs.append((rng.choice(['always', 'dynamic']), gen.formula(rng, ['a', 'b'], 2, UN, BIN, None, ['true', 'false'], nfold=0.3, leaf=0.3)))
+        out.append(fs)
+    A_, B_ = ('atom', 'a'), ('atom', 'b')
+    for m in ('dia', 'box'):
+        for pth in [('skip',), ('patom', 'a'), ('test', A_), ('test', ('true',)), ('choice', ('patom', 'a'), ('skip',)), ('seq', ('test', A_), ('skip',)), ('star', ('skip',)), ('star', ('patom', 'a')),
+                    ('star', ('choice', ('patom', 'a'), ('seq', ('skip',), ('skip',)))), ('seq', ('star', ('skip',)), ('test', A_)), ('star', ('seq', ('test', B_), ('patom', 'a')))]:
+            out.append([('always', ('DEL', (m, pth, B_)))])
+            out.append([('initial', ('DEL', (m, pth, (m, ('skip',), B_))))])
     return out
 
 
+def ftxt(f):
+    return lang.dfml_txt(f[1]) if f[0] == 'DEL' else lang.fml_txt(f)
+
+
+def nofinal(d):
+    if not isinstance(d, tuple):
+        return d
+    if d == ('final',):
+        return ('true',)
+    return tuple(nofinal(x) for x in d)
+
+
 def program(fs):
-    neg = any(g == ('atom', '-a') for _, f in fs for g in gen.subformulas(f))
+    neg = any(g == ('atom', '-a') for _, f in fs if f[0] != 'DEL' for g in gen.subformulas(f))
     txt = '#program always.\n{ a; b%s }.\n' % ('; -a' if neg else '')
     for i, (part, f) in enumerate(fs):
-        txt += '#program %s.\n{ m(%d) }.\n:- &tel { %s }, m(%d).\n' % (part, i, lang.fml_txt(f), i)
+        txt += '#program %s.\n{ m(%d) }.\n:- &%s { %s }, m(%d).\n' % (part, i, 'del' if f[0] == 'DEL' else 'tel', ftxt(f), i)
     return txt
 
 
@@ -183,8 +216,8 @@ def compare(ctx, fss, H):
         else:
             # the schedule of the theory atoms must be the one of the program parts
             for t, st in enumerate(r['steps']):
-                want = sorted({(t, lang.fml_txt(f)) for i, (part, f) in enumerate(fs) if PARTS[part](t)})     # gringo keeps one theory atom per distinct text and step
-                got = sorted({(k, lang.fml_txt(fs[o][1])) for k, _, o in st['atoms']})
+                want = sorted({(t, ftxt(f)) for i, (part, f) in enumerate(fs) if PARTS[part](t)})     # gringo keeps one theory atom per distinct text and step
+                got = sorted({(k, ftxt(fs[o][1])) for k, _, o in st['atoms']})
                 if want != got:
                     rec.update(status='differ', what='theory atoms grounded at step %d are %s, the program parts say %s' % (t, got, want))
                     break
